@@ -270,10 +270,10 @@ def check_http_body(chk, quick):
     t0 = time.time()
     leaves = 0
     cex = None
-    for L in range(0, 23):
+    for L, uri in itertools.product(range(0, 23), ("/v1/x", "/v1/{name=x/*}:y")):     # URI without and with a path variable
         body = bstr.fresh_string("b", L)
         base = bstr.alphabet_constraints(body, IDENT + [ord("*")])
-        rule = NS(WhichOneof=lambda _: "post", post=bstr.S("/v1/x"), body=body)
+        rule = NS(WhichOneof=lambda _: "post", post=bstr.S(uri), body=body)
         for c, out in bstr.explore(lambda: fn(lambda m, u, b: b, rule), base):
             leaves += 1
             if L == 0:
